@@ -229,9 +229,11 @@ func cmdCheck(args []string) int {
 	} else {
 		fmt.Fprintln(os.Stderr, "SMT files in", dir)
 	}
-	timeout := 10 * time.Second
+	// every claimed obligation discharges in a few seconds on an idle machine; the limits leave a wide margin for a
+	// loaded one (an obligation that runs into the limit is reported as failed)
+	timeout := 30 * time.Second
 	if *tier == "thorough" {
-		timeout = 60 * time.Second
+		timeout = 120 * time.Second
 	}
 	ts := time.Now()
 	solveAll(jobs, dir, timeout, 16)
